@@ -70,12 +70,16 @@ def prop_C11(tier, seed, rng):
                          4000 if quick else 60000)
     s2 = part_gen.generate("c11", 600 if quick else 12000, seed)
     s3 = part_gen.generate("c12dense", 300 if quick else 6000, seed + 14)
+    s4 = part_gen.generate("boundary", 72 if quick else 100000, seed + 16)
     fams = [Family("tlc", "part", "PartTrace", s1, g1), Family("shaped", "part", "PartTrace", s2),
-            Family("dense", "part", "PartTrace", s3)]
+            Family("dense", "part", "PartTrace", s3), Family("boundary", "part", "PartTrace", s4)]
     return design, fams, ["C11_"], dict(
         rule="scripts = (a) one per transition of the bounded PartTree.tla state graph (TLC BFS+VIEW), "
              "(b) shaped random histories (fan-outs across 4/16/48/256, chains, binary keys, branching, clones, "
-             "iterators inside transactions, abandoned transactions); non-trivial = script re-reads a retained "
+             "iterators inside transactions, abandoned transactions), (c) enumerated node-boundary scripts: a node "
+             "with 2..50 children (around the 4/16/48 thresholds, branch bytes 0x00/0xff included), with or "
+             "without its own value, loses its first/middle/last child and gets it back, every key read from the "
+             "transaction, the new and the old tree; non-trivial = script re-reads a retained "
              "tree/clone/iterator after a later write of a transaction derived from it",
         nontrivial=lambda ops: _c11_nontrivial(ops),
         assumptions=["Notify is issued only along a linear history (DESIGN 9); C11 scripts branch with Commit only",
@@ -106,13 +110,15 @@ def prop_C12(tier, seed, rng):
     s3 = part_gen.generate("c12inner", 300 if quick else 6000, seed + 12)
     s4 = part_gen.generate("c12dense", 600 if quick else 12000, seed + 13)
     s5 = part_gen.generate("c12pairs", 1500 if quick else 100000, seed + 15)
+    s6 = part_gen.generate("boundaryw", 72 if quick else 100000, seed + 17)
     fams = [Family("tlc", "part", "PartTrace", s1, g1), Family("shaped", "part", "PartTrace", s2),
             Family("innernodes", "part", "PartTrace", s3), Family("dense", "part", "PartTrace", s4),
-            Family("pairs", "part", "PartTrace", s5)]
+            Family("pairs", "part", "PartTrace", s5), Family("boundary", "part", "PartTrace", s6)]
     return design, fams, ["C12_"], dict(
         rule="scripts = (a) one per transition of the bounded PartTree.tla state graph, (b) shaped linear histories "
              "with >=1 watch per transaction (Get on present/absent keys, Prefix incl. inside compressed paths, "
-             "RootWatch, InsertWatch/ModifyWatch) in per-node and root-only mode; non-trivial = a tracked channel "
+             "RootWatch, InsertWatch/ModifyWatch) in per-node and root-only mode, (c) enumerated node-boundary scripts "
+             "(see C11) with Get/Prefix watches on the removed child, its neighbour and the node; non-trivial = a tracked channel "
              "exists when a transaction is notified or abandoned",
         nontrivial=lambda ops: _c12_nontrivial(ops),
         assumptions=["watch contract checked along a linear history only (DESIGN 9)",
@@ -316,8 +322,14 @@ def _sched_prop(prop, rule):
         fams = sched_families(tier, seed, rng, prop, 150, 3000, 250, 6000)
         if prop == "C05":
             fams.append(stress_family(tier, seed, prop))
+        if prop == "C10":
+            # sequential histories: with one goroutine every call must return (a lock left behind by an earlier
+            # call, e.g. by closing the iterator of an aborted transaction, shows as a deadlock of the process)
+            import db_gen
+            for m, q, t in (("c02", 120, 2500), ("c07", 80, 1500)):
+                fams.append(Family("seq-" + m, "db", "DBTrace", db_gen.generate(m, q if quick else t, seed * 67 + 10)))
         return design, fams, [prop], dict(
-            rule=rule, nontrivial=lambda ops: (ops[0].get("op") == "stress") or (len(ops[0]["actors"]) >= 2 and len(ops[0]["schedule"]) >= 3),
+            rule=rule, nontrivial=lambda ops: (ops[0].get("op") != "sched") or (len(ops[0]["actors"]) >= 2 and len(ops[0]["schedule"]) >= 3),
             assumptions=["goroutines are serialised by the verif hooks: one protocol step at a time; blocked = goroutine "
                          "wait reason sync.Mutex.Lock", "bounded actor counts (<= 6 goroutines)"] + DB_ASSUME[1:3])
     return fn
@@ -392,7 +404,9 @@ PROPS = {
                               "graveyard collector, replayed under random priority schedules with a probe of the committed "
                               "state after every protocol step"),
     "C10": _sched_prop("C10", "as C05; every blocked goroutine must be explained by a transaction sharing a table (or by the "
-                              "root mutex being held), probes (readers) must complete at every gate, all actors must finish"),
+                              "root mutex being held), probes (readers) must complete at every gate, all actors must finish; plus "
+                              "sequential histories (families seq-c02, seq-c07: aborted transactions that created iterators, "
+                              "iterator closes, collection) in which every call must return"),
     "C18": prop_C18,
     "C17": prop_C17,
     "C01": _db_prop("C01", "c01", 300, 6000,
